@@ -160,6 +160,20 @@ func fileOracle(prop string, d progen.FileParams, res *Result) []string {
 		return out
 	}
 	// C14
+	// "VDR reclaims what it MAY": a file named by a top-level output or by a
+	// retain declaration is not reclaimable (the same observation C04 makes).
+	for _, kp := range keptPaths {
+		if msg := CheckFileIntact(kp); msg != "" {
+			out = append(out, "reclaimed a file named by a top-level output: "+msg)
+		}
+	}
+	if d.Retain != "" && !d.TopOut {
+		for _, rp := range retained {
+			if msg := CheckFileIntact(rp); msg != "" {
+				out = append(out, "reclaimed a file named by a retain declaration: "+msg)
+			}
+		}
+	}
 	var treePaths []string
 	for p := range res.Tree {
 		treePaths = append(treePaths, p)
